@@ -10,6 +10,7 @@ import (
 	"github.com/DataDog/datadog-traceroute/common"
 
 	"verif/harness/fw"
+	"verif/harness/refmatch"
 	"verif/harness/scripted"
 )
 
@@ -212,7 +213,7 @@ func checkC03() fw.Check {
 	return fw.Check{
 		Prop:  "C03",
 		Level: "exploration",
-		Rule: "one case = (engine, first TTL, last TTL) with several seeded network behaviours (answered subset, 0-3 destination TTLs, duplicates, late/early replies, bad packets) driven through the real common.TracerouteParallel/TracerouteSerial and common.ToHops with a scripted driver in a virtual-time bubble; " +
+		Rule: "one case = (engine, first TTL, last TTL) with several seeded network behaviours (answered subset, 0-3 destination TTLs, duplicates, late/early replies, bad packets) driven through the real common.TracerouteParallel/TracerouteSerial and common.ToHops with a scripted driver in a virtual-time bubble; plus every real variant over the simulated wire (destination at the first / a middle / the last TTL / absent, silent routers, identifier bases at the wrap) judged by the reference fold (parallel) or the first-destination-read rule (serial) for the list length; " +
 			"distinct_nontrivial counts distinct (engine, result-length bucket, destination seen, answered-count bucket) signatures in which at least one reply was handed to the engine",
 		Workers:       16,
 		MinNontrivial: 8,
@@ -255,6 +256,53 @@ func checkC03() fw.Check {
 							}
 						}
 					}})
+				}
+			}
+			// the same shape rules on the lists the REAL variants return (every driver behind the engines, over the simulated
+			// wire): destination at the first / a middle / the last TTL / out of range, some routers silent, identifier bases
+			// in the middle of their ranges and at the wrap. The reference fold (parallel) and the first-destination-read rule
+			// (serial) give the expected length; soundness and completeness of the entries ride along (C01/C02).
+			wins := []window{{1, 8}, {3, 12}, {250, 255}}
+			if tier == "thorough" {
+				wins = thoroughWindows(seed, 10)
+			}
+			for _, v := range refmatch.Variants {
+				for _, w := range wins {
+					for bi, b := range basesQuick {
+						v, w, b := v, w, b
+						id := fmt.Sprintf("C03/real/%s/%d-%d/%s", v.Name, w.first, w.last, b.name)
+						cases = append(cases, fw.Case{ID: id, Bubble: true, Run: func(c *fw.Ctx) {
+							n := w.last - w.first + 1
+							for di, dist := range []int{w.first, w.first + n/2, w.last, 0} {
+								if di > 0 && dist == w.first {
+									continue
+								}
+								sc := scenario{tag: fmt.Sprintf("%s dist=%d", id, dist), v: v, win: w, b: b, model: func(e *simEnv) *pathModel {
+									m := &pathModel{hops: map[int]*hopSpec{}, dist: dist, destDelay: 4 * time.Millisecond}
+									last := w.last
+									if dist > 0 {
+										last = dist - 1
+									}
+									for t := w.first; t <= last; t++ {
+										if (t+bi+di)%5 == 3 {
+											continue // a silent router
+										}
+										m.hops[t] = &hopSpec{addr: routerAddr(v.V6, 1, t), delay: time.Duration(2+t%7) * time.Millisecond}
+									}
+									return m
+								}}
+								out := runScenario(c, sc)
+								if out == nil {
+									continue
+								}
+								if out.res.Err == nil && out.res.Run != nil {
+									c.Nontrivial(fmt.Sprintf("real/%s/len%d/dest%v", v.Name, bucket(len(out.res.Run.Hops)), dist > 0))
+									c.Count("real_variant_runs", 1)
+								}
+								out.e.close()
+							}
+						}})
+					}
 				}
 			}
 			return cases
